@@ -1,6 +1,7 @@
 package rules
 
 import (
+	"go/token"
 	"go/types"
 	"strings"
 
@@ -14,12 +15,14 @@ func init() {
 		ID: "C18",
 		Explanation: "Decides structural necessary conditions of C18's 'reader gone / never deadlock' and 'all exceptions reported' clauses: (SEND-OWN) every send on a pipeline value channel (Port.Chan, valueOutput.data) sits in a select that also listens on the port's sendStop, so a writer can always observe that its reader is gone; (STOP-ORDER) in the per-form function of pipelineOp.exec the reader-gone error is stored before sendStop is closed, every form-owned port is closed and wg.Done runs exactly once on every path, after both; wg.Add counts exactly the forms ranged over and each iteration starts its form exactly once; (SENDERR-NONNIL) every Port literal with a sendStop has a sendError; (ALL-EXC) the pipeline's exception is MakePipelineError over one slot per form, each written only by its own form; (NO-JOIN-ON-EARLY-EXIT) a command that hands one input band to a goroutine and joins it before returning must not be able to stop consuming the other band early. Delivery order and exactly-once delivery of data are not decided.",
 		NotCovered:  "in-order exactly-once delivery of values and bytes; real schedules; commands that read one band to EOF without draining the other (the stage has not exited, so the property's wording does not forbid the resulting stall)",
-		Rules:       []string{"SEND-OWN", "STOP-ORDER", "SENDERR-NONNIL", "ALL-EXC", "NO-JOIN-ON-EARLY-EXIT"},
+		Rules:       []string{"SEND-OWN", "STOP-ORDER", "SENDERR-NONNIL", "ALL-EXC", "NO-JOIN-ON-EARLY-EXIT", "INPUT-TO-EOF: byte input is never read through a token-limited bufio.Scanner"},
 		Patterns:    []string{"./pkg/eval/...", "./pkg/mods/...", "./pkg/edit/..."},
-		Run:         runC18,
-		MinCounts:   map[string]int{"SEND-OWN": 1, "STOP-ORDER": 5, "SENDERR-NONNIL": 2, "ALL-EXC": 2, "NO-JOIN-ON-EARLY-EXIT": 2},
+		Run:         func(p *core.Program, r *core.Report) { runC18(p, r); runInputToEOF(p, r) },
+		MinCounts:   map[string]int{"INPUT-TO-EOF": 1, "SEND-OWN": 1, "STOP-ORDER": 5, "SENDERR-NONNIL": 2, "ALL-EXC": 2, "NO-JOIN-ON-EARLY-EXIT": 2},
 		Trusted:     trustedBase,
 		Controls: []core.Control{
+			{Name: "lines-through-bufio-scanner", Rule: "INPUT-TO-EOF", File: "pkg/eval/frame.go", Old: "\tfilein := bufio.NewReader(r)\n", New: "\tfilein := bufio.NewReader(r)\n\tif sc := bufio.NewScanner(r); sc.Scan() {\n\t\tch <- sc.Text()\n\t}\n", Fire: true, Want: "linesToChan", Patterns: []string{"./pkg/eval"}},
+			{Name: "pipe-failure-compensates-wrong-count", Rule: "STOP-ORDER", File: "pkg/eval/compile_effect.go", Old: "\t\t\t\twg.Add(i - nforms)\n", New: "\t\t\t\twg.Add(i - nforms + 1)\n", Fire: true, Want: "additional wg.Add", Patterns: []string{"./pkg/eval"}},
 			{Name: "put-without-sendStop", Rule: "SEND-OWN", File: "pkg/eval/port.go", Old: "\tselect {\n\tcase vo.data <- v:\n\t\treturn nil\n\tcase <-vo.sendStop:\n\t\treturn *vo.sendError\n\t}", New: "\tvo.data <- v\n\treturn nil", Fire: true, Quick: true, Patterns: []string{"./pkg/eval"}},
 			{Name: "raw-send-on-port-chan", Rule: "SEND-OWN", File: "pkg/eval/builtin_fn_io.go", Old: "func repeat(fm *Frame, n int, v any) error {\n\tout := fm.ValueOutput()\n\tfor i := 0; i < n; i++ {\n\t\terr := out.Put(v)\n\t\tif err != nil {\n\t\t\treturn err\n\t\t}\n\t}", New: "func repeat(fm *Frame, n int, v any) error {\n\tfor i := 0; i < n; i++ {\n\t\tfm.ports[1].Chan <- v\n\t}", Fire: true, Patterns: []string{"./pkg/eval"}},
 			{Name: "close-sendStop-before-error", Rule: "STOP-ORDER", File: "pkg/eval/compile_effect.go", Old: "\t\t\t\t*input.sendError = errs.ReaderGone{}\n\t\t\t\tclose(input.sendStop)", New: "\t\t\t\tclose(input.sendStop)\n\t\t\t\t*input.sendError = errs.ReaderGone{}", Fire: true, Quick: true, Patterns: []string{"./pkg/eval"}},
@@ -421,12 +424,17 @@ func runStopOrder(p *core.Program, r *core.Report) {
 
 	// 5. wg.Add(len(forms)) and one start per iteration, in exec itself
 	var add ssa.Instruction
+	var extraAdds []ssa.Instruction
 	var starts []ssa.Instruction
 	var waits []ssa.Instruction
 	var mpe *ssa.Call
 	core.Instrs(exec, func(ins ssa.Instruction) {
 		if isWGCall(ins, "Add") {
-			add = ins
+			if add == nil {
+				add = ins
+			} else {
+				extraAdds = append(extraAdds, ins)
+			}
 		}
 		if isWGCall(ins, "Wait") {
 			waits = append(waits, ins)
@@ -450,6 +458,37 @@ func runStopOrder(p *core.Program, r *core.Report) {
 			r.OK("STOP-ORDER", "(*eval.pipelineOp).exec wg.Add(len(op.forms))", p.InsPos(add), "the counter is the number of forms")
 		} else {
 			r.Bad("STOP-ORDER", "(*eval.pipelineOp).exec wg.Add(len(op.forms))", p.InsPos(add), "wg.Add is not called with len(op.forms)")
+		}
+		// a further Add is only a compensation for forms that will never be
+		// started: wg.Add(i - nforms) with i the index of the loop over the
+		// forms, on a path from which no form is started any more
+		for _, ea := range extraAdds {
+			arg := ea.(ssa.CallInstruction).Common().Args[1]
+			construct := "(*eval.pipelineOp).exec additional wg.Add(" + addrDesc(arg) + ")"
+			sub, isSub := arg.(*ssa.BinOp)
+			okShape := false
+			if isSub && sub.Op == token.SUB {
+				nv := core.Unwrap(stripConvert(throughCell(sub.Y)))
+				la := lenArg(nv)
+				_, idxIsLoopVar := loopIndexOf(sub.X)
+				okShape = la != nil && strings.HasSuffix(exprKey(la), ".forms") && idxIsLoopVar
+			}
+			startsAfter, _ := core.Reaches(ea, func(x ssa.Instruction) bool {
+				for _, t := range starts {
+					if t == x {
+						return true
+					}
+				}
+				return false
+			}, nil)
+			switch {
+			case !okShape:
+				r.Bad("STOP-ORDER", construct, p.InsPos(ea), "the WaitGroup counter is changed by something other than the number of forms, or the forms not started (index - len(op.forms)): Wait no longer matches the forms actually running")
+			case startsAfter:
+				r.Bad("STOP-ORDER", construct, p.InsPos(ea), "the counter is reduced for forms that are 'not started', but a form can still be started after this point")
+			default:
+				r.OK("STOP-ORDER", construct, p.InsPos(ea), "compensates exactly the forms from the current index on, and no form is started afterwards")
+			}
 		}
 		// each start must not reach another start without passing the loop head (approximation: starts are in different blocks that do not reach each other without a Next)
 		bad := false
@@ -771,4 +810,31 @@ func returnsFromInsideLoop(recv *ssa.UnOp, ret *ssa.BasicBlock) bool {
 		return exitBlk != nil && x.Block() == exitBlk
 	})
 	return reach
+}
+
+// loopIndexOf: v is the index variable of a range/for loop (a phi in a loop
+// header, possibly incremented).
+func loopIndexOf(v ssa.Value) (*ssa.Phi, bool) {
+	for i := 0; i < 3; i++ {
+		switch x := v.(type) {
+		case *ssa.Phi:
+			for _, e := range x.Edges {
+				if bo, ok := e.(*ssa.BinOp); ok && bo.Op == token.ADD && (bo.X == ssa.Value(x) || bo.Y == ssa.Value(x)) {
+					return x, true
+				}
+			}
+			return nil, false
+		case *ssa.BinOp:
+			if x.Op == token.ADD {
+				if _, isC := x.Y.(*ssa.Const); isC {
+					v = x.X
+					continue
+				}
+			}
+			return nil, false
+		default:
+			return nil, false
+		}
+	}
+	return nil, false
 }
